@@ -1,31 +1,66 @@
 /-
-  Semantic lemmas for the stage-2 generator proof: straight-line statements inside a context,
-  the compare instruction, and the correctness of every condition template.
+  Semantic lemmas for the generator proof: straight-line statements inside a context, the compare
+  instructions, and the correctness of every condition template (registers included).
 -/
-import CV.Proofs.GenFlatLemmas
+import CV.Proofs.GenRegLemmas
 import CV.Proofs.GenStructLemmas
 set_option linter.unusedSimpArgs false
 set_option linter.unusedVariables false
-namespace CV.GenStruct
+set_option linter.constructorNameAsVariable false
+
+namespace CV.GenReg
 open CV CV.GenFlat
 
-/-- what the generator's flag belief claims about a machine state -/
-def FlagsInv (L : Layout) (fl : Option String) (s : Cpu) : Prop :=
-  match fl with
-  | none => True
-  | some v => s.f.z = (s.mem.read (L v) == 0)
+section nat
+variable {α β : Type} (f : α → β) (n : α) (r : Atom → α)
 
-@[simp] theorem flagsInv_none (L : Layout) (s : Cpu) : FlagsInv L none s := trivial
+theorem loadA_nat (x : RA) : loadA (f n) (fun a => f (r a)) x = (loadA n r x).map fun p => (p.1, f p.2) := by
+  cases x <;> simp [loadA]
 
-theorem opdOf_ite (L : Layout) (c : Bool) (y : Atom) :
-    opdOf L (if c = true then none else some y) = if c = true then Opd.none else opd L y := by
-  cases c <;> simp [opdOf]
+theorem withOperand_nat (m : Mn) (y : RA) :
+    withOperand (fun a => f (r a)) m y = (withOperand r m y).map fun p => (p.1, f p.2) := by
+  cases y <;> simp [withOperand]
 
-/-- the operand-resolved template is the text template with operands resolved -/
-theorem genOps_eq (L : Layout) (s : FStmt) :
-    genOps L s = (template (none : Option Atom) (fun a => some a) s).map fun p => (p.1, opdOf L p.2) := by
-  cases s <;> simp [genOps, template, opdOf, List.map_map, Function.comp_def, opdOf_ite] <;>
-    (intro m _; split <;> rfl)
+theorem opCode_nat (op : BOp) (y : RA) :
+    opCode (f n) (fun a => f (r a)) op y = (opCode n r op y).map fun p => (p.1, f p.2) := by
+  unfold opCode
+  by_cases h : rIsIdentity op y = true
+  · simp [h, List.map_map, Function.comp_def]
+  · simp [h, List.map_map, Function.comp_def, List.map_flatMap, withOperand_nat]
+
+theorem storeA_nat (v : LV) : storeA (f n) (fun a => f (r a)) v = (storeA n r v).map fun p => (p.1, f p.2) := by
+  cases v <;> simp [storeA]
+
+theorem asgCode_nat (v : LV) (a : RA) :
+    asgCode (f n) (fun a => f (r a)) v a = (asgCode n r v a).map fun p => (p.1, f p.2) := by
+  cases v <;> cases a <;> simp [asgCode]
+
+theorem binCode_nat (v : LV) (op : BOp) (x y : RA) :
+    binCode (f n) (fun a => f (r a)) v op x y = (binCode n r v op x y).map fun p => (p.1, f p.2) := by
+  unfold binCode
+  by_cases h : orZeroReg op x y = true
+  · simp [h, asgCode_nat]
+  · simp [h, loadA_nat, opCode_nat, storeA_nat]
+
+theorem incCode_nat (b : Bool) (v : LV) :
+    incCode (f n) (fun a => f (r a)) b v = (incCode n r b v).map fun p => (p.1, f p.2) := by
+  cases v <;> simp [incCode]
+
+theorem rtemplate_nat (s : RStmt) :
+    rtemplate (f n) (fun a => f (r a)) s = (rtemplate n r s).map fun p => (p.1, f p.2) := by
+  cases s <;> simp [rtemplate, asgCode_nat, binCode_nat, incCode_nat]
+
+end nat
+
+theorem rgenOps_eq (L : Layout) (s : RStmt) :
+    rgenOps L s = (rtemplate (none : Option Atom) (fun a => some a) s).map fun p => (p.1, GenStruct.opdOf L p.2) := by
+  have := rtemplate_nat (GenStruct.opdOf L) (none : Option Atom) (fun a => some a) s
+  simpa [rgenOps, GenStruct.opdOf] using this
+
+end CV.GenReg
+
+namespace CV.GenStruct
+open CV CV.GenFlat CV.GenReg
 
 theorem steps_of_execSeq (L : Layout) (ops : List (Mn × Option Atom)) :
     ∀ (pre post : List GLine) (s s' : Cpu),
@@ -61,16 +96,14 @@ theorem steps_of_execSeq (L : Layout) (ops : List (Mn × Option Atom)) :
       simpa using hrest
 
 /-- a straight-line statement inside any context -/
-theorem flat_steps (L : Layout) (st : FStmt) (pre post : List GLine) (s : Cpu) :
+theorem flat_steps (L : Layout) (st : RStmt) (fl : Option FRef) (pre post : List GLine) (s : Cpu) (hinv : FlagsInv L fl s) :
     ∃ s', Steps L (pre ++ flatLines st ++ post) pre.length s (pre.length + (flatLines st).length) s' ∧
-      s'.mem = spec L s.mem st ∧ s'.x = s.x ∧ s'.y = s.y ∧ s'.sp = s.sp ∧
-      FlagsInv L (some (target st)) s' := by
-  obtain ⟨s', he, hm, hx, hy, hsp, hz⟩ := flat_correct L st s
-  rw [genOps_eq] at he
-  have := steps_of_execSeq L (template (none : Option Atom) (fun a => some a) st) pre post s s' he
-  refine ⟨s', ?_, hm, hx, hy, hsp, hz⟩
+      srcOf s' = rspec L (srcOf s) st ∧ s'.sp = s.sp ∧ FlagsInv L (flagsAfter fl st) s' := by
+  obtain ⟨s', he, hm, hsp, hz⟩ := rflat_correct L st fl s hinv
+  rw [rgenOps_eq] at he
+  have := steps_of_execSeq L (rtemplate (none : Option Atom) (fun a => some a) st) pre post s s' he
+  refine ⟨s', ?_, hm, hsp, hz⟩
   simpa [flatLines] using this
-
 
 /-! ### single steps inside a block -/
 
@@ -179,48 +212,65 @@ theorem sub_beq_zero (a m : Byte) : (a - m == 0) = (a == m) := by
 /-! ### condition templates -/
 
 /-- a piece of condition code generated at state `g`: started anywhere, it ends at `label` when
-    `jumpIf` holds of the memory and right behind itself otherwise; memory, X, Y, SP are unchanged and the
-    generator's belief about the flags is true afterwards (on both exits) -/
-def CondSpec (L : Layout) (g : GState) (r : List GLine × GState) (label : Lbl) (jumpIf : Mem → Bool) : Prop :=
+    `jumpIf` holds of the source-visible state and right behind itself otherwise; memory, X, Y, SP are
+    unchanged and the generator's belief about the flags is true afterwards (on both exits) -/
+def CondSpec (L : Layout) (g : GState) (r : List GLine × GState) (label : Lbl) (jumpIf : SrcSt → Bool) : Prop :=
   ∀ (pre post : List GLine) (s : Cpu) (t : Nat), Old g pre → FlagsInv L g.flags s →
     findLbl (pre ++ r.1 ++ post) label = some t →
-    ∃ s', Steps L (pre ++ r.1 ++ post) pre.length s (if jumpIf s.mem then t else pre.length + r.1.length) s' ∧
-      s'.mem = s.mem ∧ s'.x = s.x ∧ s'.y = s.y ∧ s'.sp = s.sp ∧ FlagsInv L r.2.flags s'
+    ∃ s', Steps L (pre ++ r.1 ++ post) pre.length s (if jumpIf (srcOf s) then t else pre.length + r.1.length) s' ∧
+      srcOf s' = srcOf s ∧ s'.sp = s.sp ∧ FlagsInv L r.2.flags s'
 
-theorem zeroTest_correct (L : Layout) (g : GState) (v : String) (op : COp) (label : Lbl)
+theorem flagsInv_some (L : Layout) (ref : LV) (s : Cpu) :
+    FlagsInv L (some ref) s ↔ s.f.z = (rval L (srcOf s) ref.ra == 0) := by
+  cases ref <;> simp [FlagsInv, rval, LV.ra, val, srcOf]
+
+/-- `LDA v` / `CPX #0` / `CPY #0`: Z describes the operand, nothing the source sees changes -/
+theorem loadRef_exec (L : Layout) (ref : LV) (s : Cpu) :
+    ∃ s1, s.exec (loadRefMn ref) (opdOf L (some (loadRefOp ref))) = some s1 ∧ srcOf s1 = srcOf s ∧ s1.sp = s.sp ∧
+      s1.f.z = (rval L (srcOf s) ref.ra == 0) := by
+  cases ref with
+  | var v => simp [loadRefMn, loadRefOp, Cpu.exec, opdOf, opd, Cpu.rd, Cpu.ea, rval, LV.ra, val, srcOf]
+  | x =>
+    have := sub_beq_zero s.x 0
+    simp [loadRefMn, loadRefOp, Cpu.exec, opdOf, opd, Cpu.rd, Cpu.cmp, rval, LV.ra, srcOf] at this ⊢
+  | y =>
+    have := sub_beq_zero s.y 0
+    simp [loadRefMn, loadRefOp, Cpu.exec, opdOf, opd, Cpu.rd, Cpu.cmp, rval, LV.ra, srcOf] at this ⊢
+
+theorem zeroTest_correct (L : Layout) (g : GState) (ref : LV) (op : COp) (label : Lbl)
     (hop : op = .eq ∨ op = .ne) :
-    CondSpec L g (zeroTest g v op label) label (fun m => op.eval (m.read (L v)) 0) := by
+    CondSpec L g (zeroTest g ref op label) label (fun σ => op.eval (rval L σ ref.ra) 0) := by
   intro pre post s t hold hinv hl
-  by_cases hf : g.flags = some v
-  · -- the flags already describe v: a single branch
-    have hz : s.f.z = (s.mem.read (L v) == 0) := by simpa [FlagsInv, hf] using hinv
+  by_cases hf : g.flags = some ref
+  · -- the flags already describe the operand: a single branch
+    have hz : s.f.z = (rval L (srcOf s) ref.ra == 0) := by
+      rw [hf] at hinv; exact (flagsInv_some L ref s).mp hinv
     rcases hop with rfl | rfl
     · simp only [zeroTest, hf, beq_self_eq_true, if_true, List.nil_append] at hl ⊢
-      have := br_step L pre [.br .BEQ label] post 0 .BEQ label s (s.mem.read (L v) == 0) t rfl (by simp [Cpu.taken, hz]) hl
-      refine ⟨s, ?_, rfl, rfl, rfl, rfl, by simpa [FlagsInv, hf] using hz⟩
+      have := br_step L pre [.br .BEQ label] post 0 .BEQ label s (rval L (srcOf s) ref.ra == 0) t rfl (by simp [Cpu.taken, hz]) hl
+      refine ⟨s, ?_, rfl, rfl, (flagsInv_some L ref s).mpr hz⟩
       simpa [COp.eval] using this
     · simp only [zeroTest, hf, beq_self_eq_true, if_true, List.nil_append] at hl ⊢
-      have := br_step L pre [.br .BNE label] post 0 .BNE label s (!(s.mem.read (L v) == 0)) t rfl (by simp [Cpu.taken, hz]) hl
-      refine ⟨s, ?_, rfl, rfl, rfl, rfl, by simpa [FlagsInv, hf] using hz⟩
+      have := br_step L pre [.br .BNE label] post 0 .BNE label s (!(rval L (srcOf s) ref.ra == 0)) t rfl (by simp [Cpu.taken, hz]) hl
+      refine ⟨s, ?_, rfl, rfl, (flagsInv_some L ref s).mpr hz⟩
       simpa [COp.eval, bne] using this
-  · -- load first
-    have hf' : (g.flags == some v) = false := by simpa using hf
-    let s1 : Cpu := { s with a := s.mem.read (L v), f := Cpu.setNZ s.f (s.mem.read (L v)) }
-    have he : s.exec .LDA (opdOf L (some (.var v))) = some s1 := by
-      simp [Cpu.exec, opdOf, opd, Cpu.rd, Cpu.ea, s1]
+  · -- bring the operand into the flags first
+    have hf' : (g.flags == some ref) = false := by simpa using hf
+    obtain ⟨s1, he, hsrc, hsp, hz1⟩ := loadRef_exec L ref s
+    have hz1' : s1.f.z = (rval L (srcOf s1) ref.ra == 0) := by rw [hsrc]; exact hz1
     rcases hop with rfl | rfl
-    · simp only [zeroTest, hf', Bool.false_eq_true, if_false, List.singleton_append] at hl ⊢
-      have h1 := ins_step L pre [.ins .LDA (some (.var v)), .br .BEQ label] post 0 .LDA _ s s1 rfl he
-      have h2 := br_step L pre [.ins .LDA (some (.var v)), .br .BEQ label] post 1 .BEQ label s1 (s.mem.read (L v) == 0) t rfl
-        (by simp [Cpu.taken, s1]) hl
-      refine ⟨s1, ?_, rfl, rfl, rfl, rfl, by simp [FlagsInv, s1]⟩
+    · simp only [zeroTest, hf', Bool.false_eq_true, if_false, loadRef, List.singleton_append] at hl ⊢
+      have h1 := ins_step L pre [.ins (loadRefMn ref) (some (loadRefOp ref)), .br .BEQ label] post 0 _ _ s s1 rfl he
+      have h2 := br_step L pre [.ins (loadRefMn ref) (some (loadRefOp ref)), .br .BEQ label] post 1 .BEQ label s1
+        (rval L (srcOf s) ref.ra == 0) t rfl (by simp [Cpu.taken, hz1]) hl
+      refine ⟨s1, ?_, hsrc, hsp, (flagsInv_some L ref s1).mpr hz1'⟩
       have := h1.trans h2
       simpa [COp.eval] using this
-    · simp only [zeroTest, hf', Bool.false_eq_true, if_false, List.singleton_append] at hl ⊢
-      have h1 := ins_step L pre [.ins .LDA (some (.var v)), .br .BNE label] post 0 .LDA _ s s1 rfl he
-      have h2 := br_step L pre [.ins .LDA (some (.var v)), .br .BNE label] post 1 .BNE label s1 (!(s.mem.read (L v) == 0)) t rfl
-        (by simp [Cpu.taken, s1]) hl
-      refine ⟨s1, ?_, rfl, rfl, rfl, rfl, by simp [FlagsInv, s1]⟩
+    · simp only [zeroTest, hf', Bool.false_eq_true, if_false, loadRef, List.singleton_append] at hl ⊢
+      have h1 := ins_step L pre [.ins (loadRefMn ref) (some (loadRefOp ref)), .br .BNE label] post 0 _ _ s s1 rfl he
+      have h2 := br_step L pre [.ins (loadRefMn ref) (some (loadRefOp ref)), .br .BNE label] post 1 .BNE label s1
+        (!(rval L (srcOf s) ref.ra == 0)) t rfl (by simp [Cpu.taken, hz1]) hl
+      refine ⟨s1, ?_, hsrc, hsp, (flagsInv_some L ref s1).mpr hz1'⟩
       have := h1.trans h2
       simpa [COp.eval, bne] using this
 
@@ -315,59 +365,77 @@ theorem branchInstr_flags_none (g : GState) (op : COp) (label : Lbl) :
     (branchInstr { g with flags := none } op label).2.flags = none := by
   cases op <;> rfl
 
-theorem old_flags (g : GState) (x : Option String) (pre : List GLine) : Old { g with flags := x } pre ↔ Old g pre := by
+theorem old_flags (g : GState) (x : Option FRef) (pre : List GLine) : Old { g with flags := x } pre ↔ Old g pre := by
   simp [Old]
 
-theorem cmpTest_correct (L : Layout) (g : GState) (v : String) (right : Atom) (op : COp) (label : Lbl) :
-    CondSpec L g (cmpTest g v right op label) label (fun m => op.eval (m.read (L v)) (val L m right)) := by
+theorem Steps.cast {L : Layout} {code : List GLine} {p1 p1' p2 p2' : Nat} {s s' : Cpu}
+    (h : Steps L code p1 s p2 s') (e1 : p1 = p1') (e2 : p2 = p2') : Steps L code p1' s p2' s' := by
+  subst e1 e2; exact h
+
+/-- positions are sums of lengths -/
+macro "len_arith" : tactic =>
+  `(tactic| first | omega | (simp only [List.length_append, List.length_cons, List.length_nil, List.length_singleton, List.length_map] <;> omega))
+
+/-- the instructions of `cmpPre` as (mnemonic, operand) pairs -/
+def cmpOps : LV → Atom → List (Mn × Option Atom)
+  | .var v, right => [(.LDA, some (.var v)), (.CMP, some right)]
+  | .x, right => [(.CPX, some right)]
+  | .y, right => [(.CPY, some right)]
+
+theorem cmpPre_eq (left : LV) (right : Atom) : cmpPre left right = (cmpOps left right).map fun p => GLine.ins p.1 p.2 := by
+  cases left <;> rfl
+
+/-- after the compare: Z = (left = right), C = (right ≤ left); nothing the source sees changes -/
+theorem cmp_exec (L : Layout) (left : LV) (right : Atom) (s : Cpu) :
+    ∃ s2, execSeq s ((cmpOps left right).map fun p => (p.1, opdOf L p.2)) = some s2 ∧
+      s2.f.z = (rval L (srcOf s) left.ra == val L s.mem right) ∧
+      s2.f.c = decide ((val L s.mem right).toNat ≤ (rval L (srcOf s) left.ra).toNat) ∧
+      srcOf s2 = srcOf s ∧ s2.sp = s.sp := by
+  cases left with
+  | var v =>
+    have h2 : ∀ s1 : Cpu, s1.mem = s.mem → s1.rd (opd L right) = some (val L s.mem right) := by
+      intro s1 h; have := rd_opd L s1 right; rw [h] at this; exact this
+    have := sub_beq_zero (s.mem.read (L v)) (val L s.mem right)
+    cases right <;> simp [cmpOps, execSeq, Cpu.exec, opdOf, opd, Cpu.rd, Cpu.ea, Cpu.cmp, rval, LV.ra, val, srcOf] at this ⊢ <;> exact ⟨this, rfl⟩
+  | x =>
+    have := sub_beq_zero s.x (val L s.mem right)
+    cases right <;> simp [cmpOps, execSeq, Cpu.exec, opdOf, opd, Cpu.rd, Cpu.ea, Cpu.cmp, rval, LV.ra, val, srcOf] at this ⊢ <;> exact ⟨this, rfl⟩
+  | y =>
+    have := sub_beq_zero s.y (val L s.mem right)
+    cases right <;> simp [cmpOps, execSeq, Cpu.exec, opdOf, opd, Cpu.rd, Cpu.ea, Cpu.cmp, rval, LV.ra, val, srcOf] at this ⊢ <;> exact ⟨this, rfl⟩
+
+theorem cmpTest_correct (L : Layout) (g : GState) (left : LV) (right : Atom) (op : COp) (label : Lbl) :
+    CondSpec L g (cmpTest g left right op label) label
+      (fun σ => op.eval (rval L σ left.ra) (val L σ.mem right)) := by
   intro pre post s t hold hinv hl
-  let a0 := s.mem.read (L v)
-  let m0 := val L s.mem right
-  let s1 : Cpu := { s with a := a0, f := Cpu.setNZ s.f a0 }
-  let s2 : Cpu := s1.cmp a0 m0
-  have he1 : s.exec .LDA (opdOf L (some (.var v))) = some s1 := by
-    simp [Cpu.exec, opdOf, opd, Cpu.rd, Cpu.ea, s1, a0]
-  have he2 : s1.exec .CMP (opdOf L (some right)) = some s2 := by
-    have : s1.rd (opd L right) = some m0 := by
-      have := rd_opd L s1 right
-      simpa [s1, m0] using this
-    simp [Cpu.exec, opdOf, this, s2, s1]
+  obtain ⟨s2, he, hz, hc, hsrc, hsp⟩ := cmp_exec L left right s
   let b := branchInstr { g with flags := none } op label
-  have hcode : (cmpTest g v right op label).1 = [GLine.ins .LDA (some (.var v)), .ins .CMP (some right)] ++ b.1 := rfl
+  have hcode : (cmpTest g left right op label).1 = cmpPre left right ++ b.1 := rfl
   rw [hcode] at hl ⊢
-  have h1 := ins_step L pre ([GLine.ins .LDA (some (.var v)), .ins .CMP (some right)] ++ b.1) post 0 .LDA _ s s1 rfl he1
-  have h2 := ins_step L pre ([GLine.ins .LDA (some (.var v)), .ins .CMP (some right)] ++ b.1) post 1 .CMP _ s1 s2 rfl he2
-  have hz : s2.f.z = (a0 == m0) := by
-    have := sub_beq_zero a0 m0
-    simpa [s2, Cpu.cmp] using this
-  have hc : s2.f.c = decide (m0.toNat ≤ a0.toNat) := by simp [s2, Cpu.cmp]
-  have hold' : Old { g with flags := none } (pre ++ [GLine.ins .LDA (some (.var v)), .ins .CMP (some right)]) := by
+  have h12 := steps_of_execSeq L (cmpOps left right) pre (b.1 ++ post) s s2 he
+  rw [← cmpPre_eq] at h12
+  have w : pre ++ cmpPre left right ++ (b.1 ++ post) = pre ++ (cmpPre left right ++ b.1) ++ post := by simp
+  rw [w] at h12
+  have hold' : Old { g with flags := none } (pre ++ cmpPre left right) := by
     rw [old_flags]
-    intro l hl; simp at hl; exact hold l hl
-  have hl' : findLbl ((pre ++ [GLine.ins .LDA (some (.var v)), .ins .CMP (some right)]) ++ b.1 ++ post) label = some t := by
+    intro l hl
+    have : labels (cmpPre left right) = [] := by cases left <;> rfl
+    simp [this] at hl; exact hold l hl
+  have hl' : findLbl ((pre ++ cmpPre left right) ++ b.1 ++ post) label = some t := by
     simpa [List.append_assoc] using hl
-  have h3 := branchInstr_steps L { g with flags := none } op label
-    (pre ++ [GLine.ins .LDA (some (.var v)), .ins .CMP (some right)]) post s2 t a0 m0 hz hc hold' hl'
-  refine ⟨s2, ?_, rfl, rfl, rfl, rfl, ?_⟩
-  · have e : (pre ++ [GLine.ins .LDA (some (.var v)), .ins .CMP (some right)]) ++ b.1 ++ post
-        = pre ++ ([GLine.ins .LDA (some (.var v)), .ins .CMP (some right)] ++ b.1) ++ post := by simp
-    rw [e] at h3
-    have h12 : Steps L (pre ++ ([GLine.ins .LDA (some (.var v)), .ins .CMP (some right)] ++ b.1) ++ post)
-        pre.length s (pre.length + 2) s2 := h1.trans h2
-    have hlen : (pre ++ [GLine.ins .LDA (some (.var v)), .ins .CMP (some right)]).length = pre.length + 2 := by simp
-    rw [hlen] at h3
-    show Steps L _ pre.length s (if op.eval a0 m0 = true then t else _) s2
-    cases hev : op.eval a0 m0
-    · rw [hev] at h3
-      have h3' : Steps L (pre ++ ([GLine.ins .LDA (some (.var v)), .ins .CMP (some right)] ++ b.1) ++ post)
-          (pre.length + 2) s2 (pre.length + ([GLine.ins .LDA (some (.var v)), .ins .CMP (some right)] ++ b.1).length) s2 := by
-        have e2 : pre.length + ([GLine.ins .LDA (some (.var v)), .ins .CMP (some right)] ++ b.1).length
-            = pre.length + 2 + (branchInstr { g with flags := none } op label).1.length := by
-          simp [b]; omega
-        rw [e2]; simpa using h3
-      simpa using h12.trans h3'
-    · rw [hev] at h3
-      simpa using h12.trans (by simpa using h3)
+  have h3 := branchInstr_steps L { g with flags := none } op label (pre ++ cmpPre left right) post s2 t
+    (rval L (srcOf s) left.ra) (val L s.mem right) hz hc hold' hl'
+  have w2 : (pre ++ cmpPre left right) ++ b.1 ++ post = pre ++ (cmpPre left right ++ b.1) ++ post := by simp
+  rw [w2] at h3
+  have hlen : (cmpPre left right).length = (cmpOps left right).length := by rw [cmpPre_eq]; simp
+  refine ⟨s2, ?_, hsrc, hsp, ?_⟩
+  · show Steps L _ pre.length s (if op.eval (rval L (srcOf s) left.ra) (val L (srcOf s).mem right) = true then t else _) s2
+    simp only [srcOf_mem]
+    rcases Bool.eq_false_or_eq_true (op.eval (rval L (srcOf s) left.ra) (val L s.mem right)) with hev | hev
+    · simp only [hev, if_true] at h3 ⊢
+      exact h12.trans (h3.cast (by rw [List.length_append, hlen]) rfl)
+    · simp only [hev, Bool.false_eq_true, if_false] at h3 ⊢
+      exact h12.trans (h3.cast (by rw [List.length_append, hlen]) (by simp only [List.length_append, b]; omega))
   · show FlagsInv L (branchInstr { g with flags := none } op label).2.flags s2
     rw [branchInstr_flags_none]; trivial
 
@@ -390,146 +458,184 @@ theorem finalOp_unordered (op : COp) (negate switch : Bool) (h : op.ordered = fa
     finalOp op negate switch = .eq ∨ finalOp op negate switch = .ne := by
   cases op <;> cases negate <;> cases switch <;> simp [COp.ordered] at h <;> simp [finalOp, COp.negate, COp.mirror]
 
-theorem CondSpec.congr {L : Layout} {g : GState} {r : List GLine × GState} {label : Lbl} {j j' : Mem → Bool}
+theorem CondSpec.congr {L : Layout} {g : GState} {r : List GLine × GState} {label : Lbl} {j j' : SrcSt → Bool}
     (h : ∀ m, j m = j' m) (hs : CondSpec L g r label j) : CondSpec L g r label j' := by
   have : j = j' := funext h
   rw [← this]; exact hs
 
-
-theorem isZero_val (L : Layout) (m : Mem) (a : Atom) (h : Atom.isZero a = true) : val L m a = 0 := by
+theorem isZero_val (L : Layout) (m : Mem) (a : Atom) (h : RA.isZero (.of a) = true) : val L m a = 0 := by
   cases a with
-  | var _ => simp [Atom.isZero] at h
-  | const n => simpa [Atom.isZero, val] using h
+  | var _ => simp [RA.isZero] at h
+  | const n => simpa [RA.isZero, val] using h
 
-theorem genCondEx_correct (L : Layout) (g : GState) (l r : Atom) (op : COp) (negate : Bool) (label : Lbl)
+/-- compare `left` with `right`: by the flags alone when `right` is literal 0 and the shortcut applies, by a
+    compare instruction otherwise -/
+theorem worker_correct (L : Layout) (g : GState) (left : LV) (right : Atom) (op' : COp) (label : Lbl) (short : Bool)
+    (hun : RA.isZero (.of right) = true → op' = .eq ∨ op' = .ne) :
+    CondSpec L g (if (RA.isZero (.of right) && short) = true then zeroTest g left op' label else cmpTest g left right op' label) label
+      (fun σ => op'.eval (rval L σ left.ra) (val L σ.mem right)) := by
+  by_cases hc : (RA.isZero (.of right) && short) = true
+  · rw [if_pos hc]
+    have hz : RA.isZero (.of right) = true := by
+      cases h : RA.isZero (.of right) <;> simp [h] at hc ⊢
+    refine (zeroTest_correct L g left op' label (hun hz)).congr ?_
+    intro σ
+    rw [isZero_val L σ.mem right hz]
+  · rw [if_neg hc]
+    exact cmpTest_correct L g left right op' label
+
+theorem genCondEx_correct (L : Layout) (g : GState) (l r : RA) (op : COp) (negate : Bool) (label : Lbl)
     (hok : CondOK (.cmp op l r) = true) :
-    CondSpec L g (genCondEx g l r op negate label) label (fun m => op.eval (val L m l) (val L m r) != negate) := by
+    CondSpec L g (genCondEx g l r op negate label) label (fun σ => op.eval (rval L σ l) (rval L σ r) != negate) := by
   simp only [CondOK, Bool.and_eq_true, Bool.not_eq_true', Bool.and_eq_false_iff, Bool.or_eq_false_iff] at hok
-  obtain ⟨hcc, hord⟩ := hok
+  obtain ⟨⟨hcc, hrr⟩, hord⟩ := hok
+  -- an ordered operator never meets a literal 0
+  have hun : ∀ (sw : Bool) (a : Atom), (RA.isZero l = true ∨ RA.isZero r = true) → RA.isZero (.of a) = true →
+      finalOp op negate sw = .eq ∨ finalOp op negate sw = .ne := by
+    intro sw a hz _
+    have : op.ordered = false := by
+      cases hord with
+      | inl h => exact h
+      | inr h => rcases hz with hz | hz <;> simp [hz] at h
+    exact finalOp_unordered op negate sw this
   cases l with
-  | const n =>
+  | x =>
     cases r with
-    | const k => simp [Atom.isConst] at hcc
-    | var w =>
+    | x => simp [RA.isReg] at hrr
+    | y => simp [RA.isReg] at hrr
+    | of right =>
       simp only [genCondEx, orient]
-      by_cases hz : Atom.isZero (Atom.const n) = true
-      · simp only [hz, if_true]
-        have hun : op.ordered = false := by
-          cases hord with
-          | inl h => exact h
-          | inr h => simp [hz] at h
-        have := zeroTest_correct L g w (finalOp op negate true) label (finalOp_unordered op negate true hun)
-        refine this.congr ?_
-        intro m
-        have hn : n = 0 := by simpa [Atom.isZero] using hz
-        subst hn
-        have := finalOp_eval op negate true (val L m (Atom.const 0)) (val L m (Atom.var w))
-        simp only [if_true] at this
-        exact this
-      · have hz' : Atom.isZero (Atom.const n) = false := by simpa using hz
-        simp only [hz', Bool.false_eq_true, if_false]
-        have := cmpTest_correct L g w (Atom.const n) (finalOp op negate true) label
-        refine this.congr ?_
-        intro m
-        have := finalOp_eval op negate true (val L m (Atom.const n)) (val L m (Atom.var w))
-        simpa [val] using this
-  | var v =>
-    simp only [genCondEx, orient]
-    by_cases hz : Atom.isZero r = true
-    · simp only [hz, if_true]
-      have hun : op.ordered = false := by
-        cases hord with
-        | inl h => exact h
-        | inr h => rw [hz] at h; simp at h
-      have := zeroTest_correct L g v (finalOp op negate false) label (finalOp_unordered op negate false hun)
+      have := worker_correct L g .x right (finalOp op negate false) label (g.flags == some .x)
+        (fun hz => hun false right (Or.inr hz) hz)
       refine this.congr ?_
-      intro m
-      have hv : val L m r = 0 := isZero_val L m _ hz
-      have := finalOp_eval op negate false (val L m (Atom.var v)) (val L m r)
-      simp only [Bool.false_eq_true, if_false] at this
-      rw [hv] at this
-      rw [hv]
-      exact this
-    · have hz' : Atom.isZero r = false := by simpa using hz
-      simp only [hz', Bool.false_eq_true, if_false]
-      have := cmpTest_correct L g v r (finalOp op negate false) label
+      intro σ
+      have := finalOp_eval op negate false (rval L σ .x) (rval L σ (.of right))
+      simpa [rval, LV.ra] using this
+  | y =>
+    cases r with
+    | x => simp [RA.isReg] at hrr
+    | y => simp [RA.isReg] at hrr
+    | of right =>
+      simp only [genCondEx, orient]
+      have := worker_correct L g .y right (finalOp op negate false) label (g.flags == some .y)
+        (fun hz => hun false right (Or.inr hz) hz)
       refine this.congr ?_
-      intro m
-      have := finalOp_eval op negate false (val L m (Atom.var v)) (val L m r)
-      simpa [val] using this
+      intro σ
+      have := finalOp_eval op negate false (rval L σ .y) (rval L σ (.of right))
+      simpa [rval, LV.ra] using this
+  | of la =>
+    cases la with
+    | const n =>
+      cases r with
+      | of ra =>
+        cases ra with
+        | const k => simp [RA.isConst] at hcc
+        | var w =>
+          simp only [genCondEx, orient]
+          have := worker_correct L g (.var w) (.const n) (finalOp op negate true) label true
+            (fun hz => hun true (.const n) (Or.inl hz) hz)
+          simp only [Bool.and_true] at this
+          refine this.congr ?_
+          intro σ
+          have := finalOp_eval op negate true (rval L σ (.of (.const n))) (rval L σ (.of (.var w)))
+          simpa [rval, LV.ra, val] using this
+      | x =>
+        simp only [genCondEx, orient]
+        have := worker_correct L g .x (.const n) (finalOp op negate true) label (g.flags == some .x)
+          (fun hz => hun true (.const n) (Or.inl hz) hz)
+        refine this.congr ?_
+        intro σ
+        have := finalOp_eval op negate true (rval L σ (.of (.const n))) (rval L σ .x)
+        simpa [rval, LV.ra, val] using this
+      | y =>
+        simp only [genCondEx, orient]
+        have := worker_correct L g .y (.const n) (finalOp op negate true) label (g.flags == some .y)
+          (fun hz => hun true (.const n) (Or.inl hz) hz)
+        refine this.congr ?_
+        intro σ
+        have := finalOp_eval op negate true (rval L σ (.of (.const n))) (rval L σ .y)
+        simpa [rval, LV.ra, val] using this
+    | var v =>
+      cases r with
+      | of right =>
+        simp only [genCondEx, orient, RA.isReg, Bool.false_eq_true, if_false]
+        have := worker_correct L g (.var v) right (finalOp op negate false) label true
+          (fun hz => hun false right (Or.inr hz) hz)
+        simp only [Bool.and_true] at this
+        refine this.congr ?_
+        intro σ
+        have := finalOp_eval op negate false (rval L σ (.of (.var v))) (rval L σ (.of right))
+        simpa [rval, LV.ra, val] using this
+      | x =>
+        simp only [genCondEx, orient, RA.isReg, if_true]
+        have := worker_correct L g .x (.var v) (finalOp op negate true) label (g.flags == some .x)
+          (fun hz => by simp [RA.isZero] at hz)
+        refine this.congr ?_
+        intro σ
+        have := finalOp_eval op negate true (rval L σ (.of (.var v))) (rval L σ .x)
+        simpa [rval, LV.ra, val] using this
+      | y =>
+        simp only [genCondEx, orient, RA.isReg, if_true]
+        have := worker_correct L g .y (.var v) (finalOp op negate true) label (g.flags == some .y)
+          (fun hz => by simp [RA.isZero] at hz)
+        refine this.congr ?_
+        intro σ
+        have := finalOp_eval op negate true (rval L σ (.of (.var v))) (rval L σ .y)
+        simpa [rval, LV.ra, val] using this
 
 /-- the specification of condition code with several tests: as `CondSpec`, except that on the jumping exit
     the flag belief is claimed only when a single test jumps there (`single`) -/
-def CondSpecM (L : Layout) (g : GState) (r : List GLine × GState) (label : Lbl) (single : Bool) (jumpIf : Mem → Bool) : Prop :=
+def CondSpecM (L : Layout) (g : GState) (r : List GLine × GState) (label : Lbl) (single : Bool) (jumpIf : SrcSt → Bool) : Prop :=
   ∀ (pre post : List GLine) (s : Cpu) (t : Nat), Old g pre → FlagsInv L g.flags s →
     findLbl (pre ++ r.1 ++ post) label = some t →
-    ∃ s', Steps L (pre ++ r.1 ++ post) pre.length s (if jumpIf s.mem then t else pre.length + r.1.length) s' ∧
-      s'.mem = s.mem ∧ s'.x = s.x ∧ s'.y = s.y ∧ s'.sp = s.sp ∧
-      FlagsInv L (if jumpIf s.mem && !single then none else r.2.flags) s'
+    ∃ s', Steps L (pre ++ r.1 ++ post) pre.length s (if jumpIf (srcOf s) then t else pre.length + r.1.length) s' ∧
+      srcOf s' = srcOf s ∧ s'.sp = s.sp ∧
+      FlagsInv L (if jumpIf (srcOf s) && !single then none else r.2.flags) s'
 
-theorem CondSpec.toM {L : Layout} {g : GState} {r : List GLine × GState} {label : Lbl} {j : Mem → Bool}
+theorem CondSpec.toM {L : Layout} {g : GState} {r : List GLine × GState} {label : Lbl} {j : SrcSt → Bool}
     (h : CondSpec L g r label j) : CondSpecM L g r label true j := by
   intro pre post s t hold hinv hl
-  obtain ⟨s', hs, hm, hx, hy, hsp, hf⟩ := h pre post s t hold hinv hl
-  exact ⟨s', hs, hm, hx, hy, hsp, by simpa using hf⟩
+  obtain ⟨s', hs, hm, hsp, hf⟩ := h pre post s t hold hinv hl
+  exact ⟨s', hs, hm, hsp, by simpa using hf⟩
 
-theorem CondSpecM.congr {L : Layout} {g : GState} {r : List GLine × GState} {label : Lbl} {b : Bool} {j j' : Mem → Bool}
+theorem CondSpecM.congr {L : Layout} {g : GState} {r : List GLine × GState} {label : Lbl} {b : Bool} {j j' : SrcSt → Bool}
     (h : ∀ m, j m = j' m) (hs : CondSpecM L g r label b j) : CondSpecM L g r label b j' := by
   have : j = j' := funext h
   rw [← this]; exact hs
 
-/-- weakening: a claim for a single exit is also a claim for several -/
-theorem CondSpecM.weaken {L : Layout} {g : GState} {r : List GLine × GState} {label : Lbl} {b : Bool} {j : Mem → Bool}
-    (hs : CondSpecM L g r label b j) : CondSpecM L g r label false j := by
-  intro pre post s t hold hinv hl
-  obtain ⟨s', h1, hm, hx, hy, hsp, hf⟩ := hs pre post s t hold hinv hl
-  refine ⟨s', h1, hm, hx, hy, hsp, ?_⟩
-  cases hj : j s.mem
-  · simpa [hj] using hf
-  · simp [hj]
-
-
-theorem Steps.cast {L : Layout} {code : List GLine} {p1 p1' p2 p2' : Nat} {s s' : Cpu}
-    (h : Steps L code p1 s p2 s') (e1 : p1 = p1') (e2 : p2 = p2') : Steps L code p1' s p2' s' := by
-  subst e1 e2; exact h
-
-/-- positions are sums of lengths -/
-macro "len_arith" : tactic =>
-  `(tactic| first | omega | (simp only [List.length_append, List.length_cons, List.length_nil, List.length_singleton] <;> omega))
-
 /-- two tests in a row that jump to the same label: `a && b` when jumping on false, `a || b` when jumping on true -/
-theorem condSeqBoth (L : Layout) (g : GState) (ra rb : List GLine × GState) (label : Lbl) (sa sb : Bool) (ja jb : Mem → Bool)
+theorem condSeqBoth (L : Layout) (g : GState) (ra rb : List GLine × GState) (label : Lbl) (sa sb : Bool) (ja jb : SrcSt → Bool)
     (ha : CondSpecM L g ra label sa ja) (hb : CondSpecM L ra.2 rb label sb jb) (hfa : Fresh g ra) :
     CondSpecM L g (ra.1 ++ rb.1, rb.2) label false (fun m => ja m || jb m) := by
   intro pre post s t hold hinv hl
   dsimp only at hl ⊢
   have w1 : pre ++ (ra.1 ++ rb.1) ++ post = pre ++ ra.1 ++ (rb.1 ++ post) := by simp
   have w2 : pre ++ (ra.1 ++ rb.1) ++ post = (pre ++ ra.1) ++ rb.1 ++ post := by simp
-  obtain ⟨s1, hs1, hm1, hx1, hy1, hsp1, hf1⟩ := ha pre (rb.1 ++ post) s t hold hinv (by rw [← w1]; exact hl)
+  obtain ⟨s1, hs1, hm1, hsp1, hf1⟩ := ha pre (rb.1 ++ post) s t hold hinv (by rw [← w1]; exact hl)
   rw [← w1] at hs1
-  rcases Bool.eq_false_or_eq_true (ja s.mem) with hja | hja
+  rcases Bool.eq_false_or_eq_true (ja (srcOf s)) with hja | hja
   · -- first test jumps
     simp only [hja, if_true] at hs1
-    exact ⟨s1, by simpa [hja] using hs1, hm1, hx1, hy1, hsp1, by simp [hja]⟩
+    exact ⟨s1, by simpa [hja] using hs1, hm1, hsp1, by simp [hja]⟩
   · -- first test falls through
     simp only [hja, Bool.false_eq_true, if_false, Bool.false_and] at hs1 hf1
     have hold1 : Old ra.2 (pre ++ ra.1) := (hold.mono hfa.1).append (Old.of_fresh hfa)
-    obtain ⟨s2, hs2, hm2, hx2, hy2, hsp2, hf2⟩ := hb (pre ++ ra.1) post s1 t hold1 hf1 (by rw [← w2]; exact hl)
+    obtain ⟨s2, hs2, hm2, hsp2, hf2⟩ := hb (pre ++ ra.1) post s1 t hold1 hf1 (by rw [← w2]; exact hl)
     rw [← w2, hm1] at hs2
     rw [hm1] at hf2
-    rcases Bool.eq_false_or_eq_true (jb s.mem) with hjb | hjb
+    rcases Bool.eq_false_or_eq_true (jb (srcOf s)) with hjb | hjb
     · simp only [hjb, if_true] at hs2
-      refine ⟨s2, ?_, by rw [hm2, hm1], by rw [hx2, hx1], by rw [hy2, hy1], by rw [hsp2, hsp1], by simp [hjb]⟩
+      refine ⟨s2, ?_, by rw [hm2, hm1], by rw [hsp2, hsp1], by simp [hjb]⟩
       simp only [hja, hjb, Bool.or_true, if_true]
       exact hs1.trans (hs2.cast (by len_arith) rfl)
     · simp only [hjb, Bool.false_eq_true, if_false] at hs2
-      refine ⟨s2, ?_, by rw [hm2, hm1], by rw [hx2, hx1], by rw [hy2, hy1], by rw [hsp2, hsp1], by simpa [hja, hjb] using hf2⟩
+      refine ⟨s2, ?_, by rw [hm2, hm1], by rw [hsp2, hsp1], by simpa [hja, hjb] using hf2⟩
       simp only [hja, hjb, Bool.or_self, Bool.false_eq_true, if_false]
       exact hs1.trans (hs2.cast (by len_arith) (by len_arith))
 
 /-- a first test that jumps over the second one to a fresh `.ifstart` label placed behind it:
     `a && b` when jumping on true, `a || b` when jumping on false -/
-theorem condSkipOver (L : Layout) (g : GState) (ra rb : List GLine × GState) (label : Lbl) (sa sb : Bool) (ja jb : Mem → Bool)
+theorem condSkipOver (L : Layout) (g : GState) (ra rb : List GLine × GState) (label : Lbl) (sa sb : Bool) (ja jb : SrcSt → Bool)
     (ha : CondSpecM L { g with cIf := g.cIf + 1 } ra ⟨.ifstart, g.cIf⟩ sa ja) (hb : CondSpecM L ra.2 rb label sb jb)
     (hfa : Fresh { g with cIf := g.cIf + 1 } ra) (hfb : Fresh ra.2 rb) :
     CondSpecM L g (ra.1 ++ rb.1 ++ [.lab ⟨.ifstart, g.cIf⟩], { rb.2 with flags := none }) label false
@@ -571,24 +677,24 @@ theorem condSkipOver (L : Layout) (g : GState) (ra rb : List GLine × GState) (l
     have := Steps.single (step_lab L (pre ++ ra.1 ++ rb.1) post st s2)
     rw [← w0] at this
     exact this.cast (by len_arith) (by len_arith)
-  obtain ⟨s1, hs1, hm1, hx1, hy1, hsp1, hf1⟩ := ha pre (rb.1 ++ [GLine.lab st] ++ post) s
+  obtain ⟨s1, hs1, hm1, hsp1, hf1⟩ := ha pre (rb.1 ++ [GLine.lab st] ++ post) s
     (pre.length + ra.1.length + rb.1.length) hold0 hinv (by rw [← w1]; exact hfind)
   rw [← w1] at hs1
-  rcases Bool.eq_false_or_eq_true (ja s.mem) with hja | hja
+  rcases Bool.eq_false_or_eq_true (ja (srcOf s)) with hja | hja
   · simp only [hja, if_true] at hs1
-    refine ⟨s1, ?_, hm1, hx1, hy1, hsp1, by simp⟩
+    refine ⟨s1, ?_, hm1, hsp1, by simp⟩
     simp only [hja, Bool.not_true, Bool.false_and, Bool.false_eq_true, if_false]
     exact hs1.trans (hlab s1)
   · simp only [hja, Bool.false_eq_true, if_false, Bool.false_and] at hs1 hf1
-    obtain ⟨s2, hs2, hm2, hx2, hy2, hsp2, hf2⟩ := hb (pre ++ ra.1) ([GLine.lab st] ++ post) s1 t hold1 hf1 (by rw [← w2]; exact hl)
+    obtain ⟨s2, hs2, hm2, hsp2, hf2⟩ := hb (pre ++ ra.1) ([GLine.lab st] ++ post) s1 t hold1 hf1 (by rw [← w2]; exact hl)
     rw [← w2, hm1] at hs2
-    rcases Bool.eq_false_or_eq_true (jb s.mem) with hjb | hjb
+    rcases Bool.eq_false_or_eq_true (jb (srcOf s)) with hjb | hjb
     · simp only [hjb, if_true] at hs2
-      refine ⟨s2, ?_, by rw [hm2, hm1], by rw [hx2, hx1], by rw [hy2, hy1], by rw [hsp2, hsp1], by simp⟩
+      refine ⟨s2, ?_, by rw [hm2, hm1], by rw [hsp2, hsp1], by simp⟩
       simp only [hja, hjb, Bool.not_false, Bool.and_true, if_true]
       exact hs1.trans (hs2.cast (by len_arith) rfl)
     · simp only [hjb, Bool.false_eq_true, if_false] at hs2
-      refine ⟨s2, ?_, by rw [hm2, hm1], by rw [hx2, hx1], by rw [hy2, hy1], by rw [hsp2, hsp1], by simp⟩
+      refine ⟨s2, ?_, by rw [hm2, hm1], by rw [hsp2, hsp1], by simp⟩
       simp only [hja, hjb, Bool.not_false, Bool.and_false, Bool.false_eq_true, if_false]
       exact (hs1.trans (hs2.cast (by len_arith) (by len_arith))).trans (hlab s2)
 
@@ -604,7 +710,7 @@ theorem genCond_correct (L : Layout) (c : Cond) : ∀ (g : GState) (negate : Boo
     have := zeroTest_correct L g v (finalOp .ne negate false) label (finalOp_unordered .ne negate false rfl)
     refine (this.congr ?_).toM
     intro m
-    have := finalOp_eval .ne negate false (m.read (L v)) 0
+    have := finalOp_eval .ne negate false (rval L m v.ra) 0
     simpa [evalCond, COp.eval] using this
   | nottruth v =>
     intro g negate label hok
@@ -612,7 +718,7 @@ theorem genCond_correct (L : Layout) (c : Cond) : ∀ (g : GState) (negate : Boo
     have := zeroTest_correct L g v (finalOp .eq negate false) label (finalOp_unordered .eq negate false rfl)
     refine (this.congr ?_).toM
     intro m
-    have := finalOp_eval .eq negate false (m.read (L v)) 0
+    have := finalOp_eval .eq negate false (rval L m v.ra) 0
     simpa [evalCond, COp.eval] using this
   | not c ih =>
     intro g negate label hok
